@@ -5,6 +5,10 @@ import CocoVerif.Props.Lemmas.Img
 
 The valid encodings are the inductive relations of `Spec/Img.lean` (every constructor is one
 legal encoder choice: run length, run splitting, literal versus repeat, escape use).
+Proved: run-length MGE (`mge_rle_transparent`), squashed VEF 320x200x16 (`vef_squashed_transparent_16`,
+through `unsq_groups` for one record and `vefRecords_rows` for the file), escape-coded RAT for the
+images the decoder can show at all (`rat_transparent_partial`; the exclusion is the known finding,
+with the kernel-checked witness `rat_low_nibble_witness`).  Not proved: CM3 line coding.
 -/
 namespace CocoVerif.Props.C17
 open CocoVerif.Model.Img CocoVerif.Spec.Img CocoVerif.Props.Img
@@ -26,5 +30,165 @@ theorem mge_rle_transparent (pal px title enc : List Nat) (flag c a : Nat)
 /-- the premises are satisfiable: a two-pair stream is a valid encoding of three bytes -/
 example : MgeRle [7, 7, 9] [2, 7, 1, 9, 0] :=
   .run 2 7 [9] [1, 9, 0] (by decide) (by decide) (.run 1 9 [] [0] (by decide) (by decide) .done)
+
+/-! ### squashed VEF -/
+
+
+/-- one squashed record decodes to its row, whatever mixture of repeat and literal groups the
+encoder chose -/
+theorem unsq_groups (row enc : List Nat) (h : VefGroups row enc) : unsq enc enc.length = .ok row := by
+  induction h with
+  | done => rw [unsq.eq_def]; rfl
+  | rep n v rest enc' h1 h2 _ ih =>
+      rw [unsq.eq_def]
+      simp only [List.length_cons]
+      have : 128 + n > 128 := by omega
+      simp only [this, if_true]
+      have e : enc'.length + 1 - 1 = enc'.length := by omega
+      simp only [e, ih, bind, Except.bind, pure, Except.pure]
+      have : 128 + n - 128 = n := by omega
+      rw [this]
+  | lit bs rest enc' h1 h2 _ ih =>
+      rw [unsq.eq_def]
+      simp only [List.length_cons, List.length_append]
+      have hnot : ¬ bs.length > 128 := by omega
+      have hlen : ¬ (bs.length + enc'.length < bs.length) := by omega
+      simp only [hnot, if_false, hlen]
+      have e : bs.length + enc'.length - bs.length = enc'.length := by omega
+      simp [e, ih, bind, Except.bind, pure, Except.pure]
+
+/-- the records of a squashed file: each row's encoding preceded by its length -/
+def encRecs : List (List Nat × List Nat) → List Nat
+  | [] => []
+  | (_, enc) :: rest => enc.length :: enc ++ encRecs rest
+
+def RowsOK (origLen : Nat) (rows : List (List Nat × List Nat)) : Prop :=
+  ∀ r ∈ rows, VefGroups r.1 r.2 ∧ r.1.length = origLen
+
+theorem vefRecords_rows (origLen : Nat) (rows : List (List Nat × List Nat)) (h : RowsOK origLen rows) :
+    ∀ pre : List Nat, vefRecords (pre ++ encRecs rows) origLen rows.length pre.length
+      = .ok (rows.map (·.1)).flatten := by
+  induction rows with
+  | nil => intro pre; simp [vefRecords, pure, Except.pure]
+  | cons r rest ih =>
+      intro pre
+      obtain ⟨row, enc⟩ := r
+      have hr := h (row, enc) (by simp)
+      have hrest : RowsOK origLen rest := fun x hx => h x (by simp [hx])
+      have hget : (pre ++ encRecs ((row, enc) :: rest))[pre.length]? = some enc.length := by
+        simp [encRecs]
+      have hsl : ((pre ++ encRecs ((row, enc) :: rest)).drop (pre.length + 1)).take enc.length = enc := by
+        have h1 : List.drop (pre.length + 1) (pre ++ (enc.length :: (enc ++ encRecs rest))) = enc ++ encRecs rest := by
+          rw [List.drop_append]
+          simp
+        simp only [encRecs, List.cons_append]
+        rw [h1]; simp
+      have hdata : pre ++ encRecs ((row, enc) :: rest) = (pre ++ (enc.length :: enc)) ++ encRecs rest := by
+        simp [encRecs]
+      have hpos : pre.length + enc.length + 1 = (pre ++ (enc.length :: enc)).length := by simp; omega
+      have hu := unsq_groups row enc hr.1
+      simp only [List.length_cons, vefRecords, hget, hsl, hu, bind, Except.bind, pure, Except.pure]
+      rw [hdata, hpos, ih hrest (pre ++ (enc.length :: enc))]
+      simp only [List.map_cons, List.flatten_cons]
+      have : List.take origLen row = row := by rw [← hr.2]; simp
+      rw [this]
+
+/-- **squashed VEF, 320x200x16**: 400 records, each any valid group encoding of one 80-byte row:
+the decoder yields the same bitmap as for the uncompressed file (`C16.vef_raw_roundtrip_16`) -/
+theorem vef_squashed_transparent_16 (pal px : List Nat) (rows : List (List Nat × List Nat))
+    (hpal : pal.length = 16) (hpx : px.length = 64000) (hlt : ∀ p ∈ px, p < 16)
+    (hn : rows.length = 400) (hrows : RowsOK 80 rows)
+    (himg : (rows.map (·.1)).flatten = packNib px) :
+    vef (128 :: 0 :: (pal ++ encRecs rows))
+      = .ok { width := 320, height := 200, bitmap := px.map (fun p => pal.getD p 0) } := by
+  have hb := vefBitmap8 pal hpal 32000 px (by omega) hlt
+  have hrec := vefRecords_rows 80 rows hrows (128 :: 0 :: pal)
+  have hl : (128 :: 0 :: pal).length = 18 := by simp [hpal]
+  rw [hn, hl, himg] at hrec
+  have htk : List.take 16 (pal ++ encRecs rows) = pal := by rw [← hpal]; simp
+  have hd : (128 :: 0 :: pal) ++ encRecs rows = 128 :: 0 :: (pal ++ encRecs rows) := by simp
+  rw [hd] at hrec
+  simp [vef, htk, hrec, hb, bind, Except.bind, pure, Except.pure]
+
+/-- non-vacuity: a row of 80 equal bytes as one repeat group, and as literal + repeat -/
+example : VefGroups (List.replicate 80 5) [128 + 80, 5] := by
+  have := VefGroups.rep 80 5 [] [] (by decide) (by decide) .done
+  simpa using this
+
+
+/-! ### RAT escape coding -/
+
+
+/-- the bytes RAT decodes correctly: right-hand pixel (low nibble) below 8 -/
+def lowNibbleOK (b : Nat) : Prop := b < 256 ∧ b % 16 < 8
+
+theorem ratDump_byteOut (pal : List Nat) (v : Nat) (hpal : pal.length = 16) (hv : lowNibbleOK v) :
+    ratDump pal v = .ok (byteOut pal v) := by
+  obtain ⟨h1, h2⟩ := hv
+  have e : v % 8 = v % 16 := by omega
+  simp [ratDump, byteOut, e, dumpPal_ok pal (v / 16) (by omega), dumpPal_ok pal (v % 16) (by omega),
+    bind, Except.bind, pure, Except.pure]
+
+theorem replicateApp_flatMap (pal : List Nat) (n v : Nat) :
+    replicateApp n (byteOut pal v) = bytesOut pal (List.replicate n v) := by
+  induction n with
+  | zero => simp [replicateApp, bytesOut]
+  | succ n ih =>
+      simp only [replicateApp, bytesOut, List.replicate_succ, List.flatten_cons, List.flatMap_cons] at ih ⊢
+      rw [ih]
+
+theorem bytesOut_append (pal a b : List Nat) : bytesOut pal (a ++ b) = bytesOut pal a ++ bytesOut pal b := by
+  simp [bytesOut]
+
+/-- the escape decoder on any valid encoding: every literal / run choice gives the same bytes -/
+theorem ratLoop_valid (esc : Nat) (pal : List Nat) (hpal : pal.length = 16) (bytes enc : List Nat)
+    (h : RatEsc esc bytes enc) (hb : ∀ b ∈ bytes, lowNibbleOK b) :
+    ratLoop esc pal enc (bytes.length : Int) = .ok (bytesOut pal bytes) := by
+  induction h with
+  | done => rw [ratLoop.eq_def]; simp [bytesOut]; rfl
+  | lit v rest enc' hne _ ih =>
+      have hv := hb v (by simp)
+      have hrest : ∀ b ∈ rest, lowNibbleOK b := fun b hb' => hb b (by simp [hb'])
+      rw [ratLoop.eq_def]
+      have hpos : ¬ ((↑(v :: rest).length : Int) ≤ 0) := by simp only [List.length_cons]; omega
+      simp only [hpos, if_false, hne, ne_eq, not_false_eq_true, if_true, ratDump_byteOut pal v hpal hv]
+      have e : (↑(v :: rest).length : Int) - 1 = ↑rest.length := by simp
+      simp [e, ih hrest, bind, Except.bind, pure, Except.pure, bytesOut]
+  | run n v rest enc' h1 h2 _ ih =>
+      have hv : lowNibbleOK v := hb v (by
+        have : 0 < n := h1
+        simp [List.mem_append, List.mem_replicate]; omega)
+      have hrest : ∀ b ∈ rest, lowNibbleOK b := fun b hb' => hb b (by simp [hb'])
+      rw [ratLoop.eq_def]
+      have hpos : ¬ ((↑(List.replicate n v ++ rest).length : Int) ≤ 0) := by
+        simp only [List.length_append, List.length_replicate]; omega
+      have hn0 : n ≠ 0 := by omega
+      simp only [hpos, if_false, ne_eq, not_true_eq_false, hn0, ratDump_byteOut pal v hpal hv]
+      have e : ((↑n : Int) + ↑rest.length - ↑n) = ↑rest.length := by omega
+      simp [e, ih hrest, bind, Except.bind, pure, Except.pure, replicateApp_flatMap, bytesOut_append]
+
+/-- **RAT, partial**: for every image whose right-hand pixels are below 8 and every valid escape
+coding of it, the decoder yields the image.  The restriction is the known finding
+`rat-low-nibble-bit3` (`dump(c & 7)`). -/
+theorem rat_transparent_partial (esc packed border : Nat) (pal px enc : List Nat) (hpk : packed ≠ 0)
+    (hpal : pal.length = 16) (hpx : px.length = 63680) (hlt : ∀ p ∈ px, p < 16)
+    (hlow : ∀ b ∈ packNib px, lowNibbleOK b) (henc : RatEsc esc (packNib px) enc) :
+    rat (esc :: packed :: border :: (pal ++ enc))
+      = .ok (ppmHeader "P6" 320 199 ++ render pal px) := by
+  have hl := packNib_length 31840 px (by omega)
+  have hv := ratLoop_valid esc pal hpal (packNib px) enc henc hlow
+  rw [hl] at hv
+  have htk : List.take 16 (pal ++ enc) = pal := by rw [← hpal]; simp
+  have hdr : List.drop 16 (pal ++ enc) = enc := by rw [← hpal]; simp
+  simp only [rat, read1, List.drop, bind, Except.bind, pure, Except.pure, hpk, if_false, htk, hdr]
+  have : (199 * 160 : Int) = ((31840 : Nat) : Int) := by decide
+  rw [this, hv]
+  simp [render_eq_bytesOut pal 31840 px (by omega) hlt]
+
+/-- the excluded case, kernel-checked: a byte with right-hand pixel 9 is written as pixel 1 -/
+theorem rat_low_nibble_witness :
+    ratDump (List.range 16) 0x19 = .ok (colour 1 ++ colour 1) ∧ byteOut (List.range 16) 0x19 = colour 1 ++ colour 9 := by
+  constructor <;> rfl
+
 
 end CocoVerif.Props.C17
